@@ -46,6 +46,8 @@ StructureFactorFails(ev) ==
   \cup (LET all == {<<ev.mag[i][1], ev.mag[i][2], ev.mag[i][3]>> : i \in 1..Len(ev.mag)}
             tab == {<<ev.tabulated[i][1], ev.tabulated[i][2], ev.tabulated[i][3]>> : i \in 1..Len(ev.tabulated)}
         IN IF tab = {h \in all : Allowed(h, ev.centering)} THEN {} ELSE {"tabulated_reflections_are_not_exactly_the_allowed_ones"})
+  \* centering = "auto": whatever centering the library detects, no reflection it leaves out may carry a structure factor
+  \cup (IF ev.auto_dropped_nonzero = 0 THEN {} ELSE {"reflection_left_out_as_forbidden_has_a_structure_factor"})
   \cup (IF ev.translation_ppb <= Tol THEN {} ELSE {"lattice_translation_changes_the_structure_factors"})
   \cup (IF ev.imag_ppb <= Tol THEN {} ELSE {"reconstructed_potential_is_not_real"})
   \cup (IF ev.lazy_ppb <= Tol THEN {} ELSE {"lazy_and_eager_differ"})
@@ -65,8 +67,11 @@ CONSTANTS Emit
 VARIABLES c, done
 vars == <<c, done>>
 Crystals == {"Si", "Cu", "Fe", "Po", "orthoA", "orthoB", "orthoC", "Mg", "NaCl", "CsCl"}
-Init == /\ \/ \E x \in Crystals, th \in BOOLEAN, occ \in BOOLEAN, gm \in 1..2, lz \in BOOLEAN :
-                 c = [k |-> "sf", crystal |-> x, thermal |-> th, partial_occupancy |-> occ, g_max |-> gm, lazy |-> lz]
+(* primitive crystals in which one species alone sits on a centred sub-lattice (body / base centred oxygen, a third atom on a general site) *)
+SfCrystals == Crystals \cup {"mixedI", "mixedC"}
+(* small_chunks: the dask chunk-size configuration is a few kB, so that any internal batching over reflections takes several rounds *)
+Init == /\ \/ \E x \in SfCrystals, th \in BOOLEAN, occ \in BOOLEAN, gm \in 1..2, lz \in BOOLEAN, sc \in BOOLEAN :
+                 c = [k |-> "sf", crystal |-> x, thermal |-> th, partial_occupancy |-> occ, g_max |-> gm, lazy |-> lz, small_chunks |-> sc]
            \* order: how the requested thickness list is arranged (each row must belong to the thickness it is requested for)
            \/ \E x \in Crystals, o \in 1..4, e \in 1..2, sg \in 1..2, gm \in 1..2, weq \in BOOLEAN, ord \in {"ascending", "descending", "unsorted", "repeated"} :
                  c = [k |-> "dyn", crystal |-> x, orientation |-> o, energy |-> e, sg_max |-> sg, g_max |-> gm, use_wave_eq |-> weq, order |-> ord]
